@@ -282,8 +282,8 @@ func (m *Monitors) onZKEvent(e *ZKEvent) {
 }
 
 func (m *Monitors) onSQL(ev *SQLEvent) {
-	if it := m.iters[ev.Src]; it != nil && it.open {
-		it.sql = append(it.sql, ev)
+	if ev.It != nil {
+		ev.It.sql = append(ev.It.sql, ev)
 	}
 	if ev.Applied && ev.Query == "SET GLOBAL read_only = 0" && m.isDaemon(ev.Src) && ev.Dst != m.master {
 		m.promotions = append(m.promotions, promotion{ev.Seq, ev.T, ev.Src, ev.Dst})
